@@ -213,3 +213,293 @@ def is_copy_expr(e: ast.AST) -> bool:
     if isinstance(e, (ast.ListComp, ast.SetComp, ast.List, ast.Tuple)):
         return True
     return False
+
+
+# ------------------------------------------------------------ path conditions
+_FLIP = {ast.IsNot: ast.Is, ast.NotEq: ast.Eq, ast.NotIn: ast.In}
+
+
+def split_cond(e: ast.AST, pol: bool = True) -> List[Tuple[ast.AST, bool]]:
+    """Conjuncts of `e` being truthy (pol) / falsy (not pol), negations pushed
+    inwards: [(atom, polarity)].  `a and b` true -> both true; `a or b` false ->
+    both false; `not x` flips; `x is not y` -> (`x is y`, False).  A disjunction
+    that must be true (or a conjunction that must be false) stays one atom."""
+    if isinstance(e, ast.UnaryOp) and isinstance(e.op, ast.Not):
+        return split_cond(e.operand, not pol)
+    if isinstance(e, ast.BoolOp):
+        if isinstance(e.op, ast.And) and pol or isinstance(e.op, ast.Or) and not pol:
+            out: List[Tuple[ast.AST, bool]] = []
+            for v in e.values:
+                out.extend(split_cond(v, pol))
+            return out
+        return [(e, pol)]
+    if isinstance(e, ast.Compare) and len(e.ops) == 1 and type(e.ops[0]) in _FLIP:
+        pos = ast.Compare(left=e.left, ops=[_FLIP[type(e.ops[0])]()], comparators=e.comparators)
+        ast.copy_location(pos, e)
+        pos._orig = e  # type: ignore[attr-defined]
+        return [(pos, not pol)]
+    return [(e, pol)]
+
+
+def path_conds(ctx: Ctx, f: Func, node: ast.AST) -> List[Tuple[ast.AST, bool]]:
+    """What is known to hold whenever `node` (statement or expression in f's
+    own scope, canonical form) is evaluated: atoms with polarity, collected from
+    the tests of the enclosing if / while / conditional expressions /
+    comprehension filters and from terminating guards (`if c: raise|return|
+    continue|break`) that precede it in an enclosing block."""
+    from ..canon import terminates
+
+    parent_of = ctx.model.parent_of
+    out: List[Tuple[ast.AST, bool]] = []
+    child = node
+    cur = parent_of(node)
+    top = f.node
+    while cur is not None and child is not top:
+        if isinstance(cur, ast.If):
+            if any(child is s for s in cur.body):
+                out.extend(split_cond(cur.test, True))
+            elif any(child is s for s in cur.orelse):
+                out.extend(split_cond(cur.test, False))
+        elif isinstance(cur, ast.While):
+            if any(child is s for s in cur.body):
+                out.extend(split_cond(cur.test, True))
+        elif isinstance(cur, ast.IfExp):
+            if child is cur.body:
+                out.extend(split_cond(cur.test, True))
+            elif child is cur.orelse:
+                out.extend(split_cond(cur.test, False))
+        elif isinstance(cur, ast.BoolOp):
+            # `a and b`: b is evaluated only if a is truthy; `a or b`: only if a is falsy
+            idx = next((i for i, v in enumerate(cur.values) if v is child), None)
+            if idx:
+                for v in cur.values[:idx]:
+                    out.extend(split_cond(v, isinstance(cur.op, ast.And)))
+        elif isinstance(cur, (ast.ListComp, ast.SetComp, ast.GeneratorExp, ast.DictComp)):
+            if child is getattr(cur, "elt", None) or child is getattr(cur, "key", None) or child is getattr(cur, "value", None):
+                for g in cur.generators:
+                    for t in g.ifs:
+                        out.extend(split_cond(t, True))
+        # preceding terminating guards in the block that holds `child`
+        for fld in ("body", "orelse", "finalbody"):
+            blk = getattr(cur, fld, None)
+            if isinstance(blk, list) and any(child is s for s in blk):
+                for s in blk:
+                    if s is child:
+                        break
+                    if isinstance(s, ast.If) and not s.orelse and terminates(s.body):
+                        out.extend(split_cond(s.test, False))
+                    elif isinstance(s, ast.Assert):
+                        pass
+        if isinstance(cur, (ast.FunctionDef, ast.AsyncFunctionDef, ast.Lambda)):
+            break
+        child, cur = cur, parent_of(cur)
+    return out
+
+
+def cond_texts(conds: List[Tuple[ast.AST, bool]]) -> Set[str]:
+    """{'x is None', 'not isinstance(before, int)', ...} - polarity folded into the text."""
+    return {(norm(e) if pol else "not " + (norm(e) if isinstance(e, (ast.Name, ast.Attribute, ast.Call, ast.Subscript, ast.Constant)) else f"({norm(e)})")) for e, pol in conds}
+
+
+def holds(conds: List[Tuple[ast.AST, bool]], pattern: str, pol: bool = True, env=None) -> Optional[Dict[str, object]]:
+    """Bindings if some atom matches `pattern` with polarity `pol`."""
+    from ..pat import match
+
+    for e, p in conds:
+        if p is pol:
+            r = match(pattern, e, env)
+            if r is not None:
+                return r
+    return None
+
+
+# ------------------------------------------------------------------ exit cases
+class Case:
+    """One way a function hands something back: `return v` / `yield v` /
+    `raise e`, with the path conditions under which the statement runs."""
+
+    __slots__ = ("kind", "stmt", "value", "conds")
+
+    def __init__(self, kind: str, stmt: ast.AST, value: Optional[ast.AST], conds: List[Tuple[ast.AST, bool]]):
+        self.kind, self.stmt, self.value, self.conds = kind, stmt, value, conds
+
+    def __repr__(self) -> str:  # pragma: no cover - debugging
+        return f"<{self.kind} {norm(self.value) if self.value is not None else None} when {sorted(cond_texts(self.conds))}>"
+
+
+def exit_cases(ctx: Ctx, f: Func, kinds: Tuple[str, ...] = ("return", "raise", "yield")) -> List[Case]:
+    out: List[Case] = []
+    for n in iter_own(f.node):
+        if isinstance(n, ast.Return) and "return" in kinds:
+            out.append(Case("return", n, n.value, path_conds(ctx, f, n)))
+        elif isinstance(n, ast.Raise) and "raise" in kinds:
+            out.append(Case("raise", n, n.exc, path_conds(ctx, f, n)))
+        elif isinstance(n, (ast.Yield, ast.YieldFrom)) and "yield" in kinds:
+            out.append(Case("yield", n, n.value, path_conds(ctx, f, n)))
+    return out
+
+
+def find_cases(cases: List[Case], kind: str, value: Optional[str] = None, when: Iterable[Tuple[str, bool]] = (), env=None) -> List[Tuple[Case, Dict[str, object]]]:
+    """Cases of `kind` whose value matches the pattern `value` and whose path
+    conditions contain an atom for every (pattern, polarity) in `when`;
+    metavariables are shared between value and conditions."""
+    from ..pat import match
+
+    res = []
+    for c in cases:
+        if c.kind != kind:
+            continue
+        e: Optional[Dict[str, object]] = dict(env or {})
+        if value is not None:
+            if c.value is None:
+                continue
+            e = match(value, c.value, e)
+            if e is None:
+                continue
+        ok = True
+        for pt, pol in when:
+            hit = None
+            for atom, p in c.conds:
+                if p is pol:
+                    hit = match(pt, atom, e)
+                    if hit is not None:
+                        break
+            if hit is None:
+                ok = False
+                break
+            e = hit
+        if ok:
+            res.append((c, e or {}))
+    return res
+
+
+def stmts_before(ctx: Ctx, f: Func, node: ast.AST) -> List[ast.stmt]:
+    """Statements that have run (in this iteration / call) before `node`:
+    earlier siblings in every enclosing block, innermost first."""
+    parent_of = ctx.model.parent_of
+    out: List[ast.stmt] = []
+    child = node
+    cur = parent_of(node)
+    while cur is not None:
+        for fld in ("body", "orelse", "finalbody"):
+            blk = getattr(cur, fld, None)
+            if isinstance(blk, list) and any(child is s for s in blk):
+                for s in blk:
+                    if s is child:
+                        break
+                    out.append(s)
+        if cur is f.node or isinstance(cur, (ast.FunctionDef, ast.AsyncFunctionDef, ast.Lambda)):
+            break
+        child, cur = cur, parent_of(cur)
+    return out
+
+
+def local_value(ctx: Ctx, f: Func, e: ast.AST, depth: int = 3) -> ast.AST:
+    """A plain local with exactly one value binding stands for that value."""
+    while depth > 0 and isinstance(e, ast.Name):
+        bs = [b for b in ctx.env.scope(f).bindings.get(e.id, []) if b.kind == "val" and b.expr is not None]
+        if len(bs) != 1 or e.id in f.param_names():
+            break
+        e = bs[0].expr
+        depth -= 1
+    return e
+
+
+def reaching_values(ctx: Ctx, f: Func, at: ast.AST, e: ast.AST) -> List[ast.AST]:
+    """Value expressions a plain local may hold at `at` (reaching definitions
+    on the CFG); the expression itself when it is not a local or unknown."""
+    if isinstance(e, ast.Name) and e.id not in f.param_names():
+        r = ctx.env.reaching(f, at, e.id)
+        if r is not None and r[0]:
+            return list(r[0])
+    return [e]
+
+
+def find_under(ctx: Ctx, f: Func, pattern: str, when: Iterable[Tuple[str, bool]] = (), env=None, root: Optional[ast.AST] = None) -> List[Tuple[ast.AST, Dict[str, object]]]:
+    """Constructs of f matching `pattern` that are evaluated only under the
+    given conditions ((atom pattern, polarity) each found among the path
+    conditions); metavariables are shared."""
+    from ..pat import find, match
+
+    out = []
+    for n, e in find(pattern, root if root is not None else f.node, env):
+        pcs = path_conds(ctx, f, n)
+        ok = True
+        for pt, pol in when:
+            hit = None
+            for atom, p in pcs:
+                if p is pol:
+                    hit = match(pt, atom, e)
+                    if hit is not None:
+                        break
+            if hit is None:
+                ok = False
+                break
+            e = hit
+        if ok:
+            out.append((n, e))
+    return out
+
+
+# --------------------------------------------------------------- order on the CFG
+def always_before(ctx: Ctx, f: Func, a: ast.AST, b: ast.AST) -> bool:
+    """Every path from the function entry to construct `b` has evaluated
+    construct `a` first (statement granularity; dominance on the CFG)."""
+    cfg = ctx.cfg(f)
+    na, nb = cfg.stmt_node_of(a, ctx.model.parent_of), cfg.stmt_node_of(b, ctx.model.parent_of)
+    if na is None or nb is None:
+        return False
+    if na is nb:
+        # same statement: order inside the expression (left to right, test before body)
+        pa = [getattr(a, "lineno", 0), getattr(a, "col_offset", 0)]
+        pb = [getattr(b, "lineno", 0), getattr(b, "col_offset", 0)]
+        return pa <= pb
+    return cfg.dominated_by(nb, lambda n: n is na)
+
+
+def never_after(ctx: Ctx, f: Func, a: ast.AST, b: ast.AST) -> bool:
+    """No path leads from construct `a` to construct `b` (b is never evaluated
+    once a has been)."""
+    cfg = ctx.cfg(f)
+    na, nb = cfg.stmt_node_of(a, ctx.model.parent_of), cfg.stmt_node_of(b, ctx.model.parent_of)
+    if na is None or nb is None:
+        return False
+    if na is nb:
+        return False
+    return cfg.find_path(na, nb, strict=True) is None
+
+
+def resolve_expr(ctx: Ctx, f: Func, at: ast.AST, e: ast.AST, depth: int = 4, keep: Iterable[str] = ()) -> ast.AST:
+    """Copy of `e` in which every plain local that has exactly one reaching
+    value at `at` is replaced by that value (recursively): the expression as it
+    would read with all single-definition locals inlined.  Only for matching."""
+    import copy as _copy
+
+    params = set(f.param_names()) | (set(f.top.param_names()) if f.parent is not None else set()) | set(keep)
+
+    def res(x: ast.AST, d: int) -> ast.AST:
+        class T(ast.NodeTransformer):
+            def visit_Name(self, node: ast.Name):
+                if isinstance(node.ctx, ast.Load) and node.id not in params and d > 0:
+                    r = ctx.env.reaching(f, at, node.id)
+                    if r is not None and len(r[0]) == 1 and not r[1]:
+                        v = r[0][0]
+                        if not isinstance(v, (ast.List, ast.Dict, ast.Set)) or getattr(v, "elts", getattr(v, "keys", [1])):
+                            return res(_copy.deepcopy(v), d - 1)
+                return node
+
+            def visit_Lambda(self, node):
+                return node
+
+        return T().visit(x)
+
+    return res(_copy.deepcopy(e), depth)
+
+
+def loop_var_iter(ctx: Ctx, f: Func, name: str) -> List[ast.AST]:
+    """iter expressions of the for-loops / comprehensions of f that bind `name`."""
+    out = []
+    for n in iter_own(f.node):
+        if isinstance(n, (ast.For, ast.comprehension)) and any(isinstance(x, ast.Name) and x.id == name for x in ast.walk(n.target)):
+            out.append(n.iter)
+    return out
